@@ -9,6 +9,7 @@ from engine.model import src, stmt_key, walk_no_nested, dotted, AnalysisError
 from engine.util import own_nodes, calls_with_nodes, where
 
 RULES = {
+    "R-10.8": "what a transaction stores at a node obeys the node-level CNAME exclusivity filter (C09 R-09.3 node-filter adopted): CNAME-kind data evicts exactly the REGULAR rdatasets and vice versa",
     "R-10.7": "a rolled-back or failed transaction on a B-tree zone leaves the published version untouched only if the B-tree never writes a node it shares with it: C19 R-19.1 (ownership of every written node) is adopted",
     "R-10.1": "every public Transaction method passes _check_ended() before any low-level hook, and _check_read_only() before any mutating hook",
     "R-10.2": "every key used with self.nodes / self.changed / self.delegations in a Version class is the result of _validate_name or _maybe_cow_with_name (or comes from the map itself)",
@@ -364,6 +365,7 @@ def run(model, rep, tier):
         un = [c for c in ast.walk(ta.node) if isinstance(c, ast.Call) and src(c.func) == "existing.union"]
         rep.check(len(un) == 1 and [src(a) for a in un[0].args] == ["rdataset"], "R-10.6", ta.qualname, where(ta, ta.node), "the result is existing.union(rdataset)", "the merge is no longer existing.union(rdataset)", stmt="merge-union")
     rep.share(model, "C19", {"R-19.1"}, "R-10.7", "the B-tree zone's writable version is a copy-on-write clone of the published node map")
+    rep.share(model, "C09", {"R-09.3"}, "R-10.8", "every put of a transaction ends in Node.replace_rdataset/_append_rdataset", only=lambda o: o.stmt == "node-filter")
     rep.meta["explanation"] = (
         "Typestate (dominance of _check_ended/_check_read_only before hook-reaching calls, with self-call summaries), sanitiser-before-sink "
         "taint analysis of map keys with reaching definitions, ownership of mutated nodes, and CFG shape rules for the exits. "
